@@ -33,6 +33,7 @@ ASSUME \A x \in Matrix : PrintT(ToJson([forgery |-> x, verdict |-> Verdict(x)]))
 (*   tri(i,j,k)   masks 1, 2, 3 xored into three octets of different words                                        *)
 (*   rot(k)       the MAC rotated by k octets; rev: reversed                                                       *)
 (*   head(k)      only the first k octets correct, the rest zero; tail(k): only the last k correct                 *)
+(*   short(k)     a msgAuthenticationParameters field of k < 12 octets; long(k): of k > 12 octets                  *)
 NearMacs ==      { [kind |-> "bits", i |-> i, j |-> 0, k |-> 0] : i \in 0..11 }
             \cup { [kind |-> "pair", i |-> i, j |-> j, k |-> 0] : i \in 0..11, j \in 0..11 }
             \cup { [kind |-> "sum", i |-> i, j |-> j, k |-> 0] : i \in 0..11, j \in 0..11 }
@@ -41,6 +42,9 @@ NearMacs ==      { [kind |-> "bits", i |-> i, j |-> 0, k |-> 0] : i \in 0..11 }
             \cup { [kind |-> "rev", i |-> 0, j |-> 0, k |-> 0] }
             \cup { [kind |-> "head", i |-> 0, j |-> 0, k |-> k] : k \in 1..11 }
             \cup { [kind |-> "tail", i |-> 0, j |-> 0, k |-> k] : k \in 1..11 }
+            \cup { [kind |-> "short", i |-> 0, j |-> 0, k |-> k] : k \in 1..11 }      \* a field of k < 12 octets holding the first k octets of the MAC
+                                                                                      \* (of the message as sent, its field zeroed)
+            \cup { [kind |-> "long", i |-> 0, j |-> 0, k |-> k] : k \in {13, 16, 20} }  \* the 12 correct octets followed by more
 NearKept == { x \in NearMacs : x.kind \in {"pair", "sum"} => x.i < x.j }
 ASSUME \A x \in NearKept : PrintT(ToJson([nearmac |-> x, verdict |-> IF HasAuth THEN "drop" ELSE "deliver"]))
 (* design-level statement of C10 over the whole matrix *)
